@@ -226,6 +226,17 @@ def h_mismatch(ctx, what):
         else:
             e, u = call(TransferFrame.unpack, raw[:len(raw) - 1], FrameType.FIXED, FixedFrameProperties(len(raw), False, False))
         ctx.holds("fixed length mismatch raises UslpInvalidRawPacketOrFrameLen", isinstance(e, ud.UslpInvalidRawPacketOrFrameLen), exc_name(e))
+    elif what == "fixed-len-larger-with-tail":
+        fr, ref, info = build_frame(ctx, 0, "fixed", 0, 0, 0, 0, 2)
+        raw = fr.pack(frame_type=FrameType.FIXED)
+        extra = ctx.int("extra", 1, 6)
+        k = int(extra)
+        longer = raw + ctx.octets("following", 6)
+        e, u = call(TransferFrame.unpack, longer, FrameType.FIXED, FixedFrameProperties(len(raw) + k, False, False))
+        ctx.holds("fixed length larger than the declared frame length raises UslpInvalidRawPacketOrFrameLen (frame followed by other octets)",
+                  isinstance(e, ud.UslpInvalidRawPacketOrFrameLen), exc_name(e) if e is not None else "accepted")
+        e, u = call(TransferFrame.unpack, longer, FrameType.FIXED, FixedFrameProperties(len(raw), False, False))
+        ctx.holds("matching fixed length accepted when the frame is followed by other octets", e is None and u.len() == len(raw), exc_name(e))
     elif what == "version":
         fr, ref, info = build_frame(ctx, 7, "variable", 0, 0, 0, 0, 2)
         raw = fr.pack(frame_type=FrameType.VARIABLE)
@@ -285,7 +296,7 @@ def cases(tier):
                                                       "octets: all header values, pointer, zones" % (rule, kind, iz, fecf, ocf, vcf, n)))
     cs.append(Case("frame-twin", "frame", h_frame, dict(rule=0, kind="fixed", iz=0, fecf=0, ocf=0, vcf=0, n=1, twin=True), expect_violation=True,
                    bounds="reachability twin"))
-    for what in ("fixed-with-vp-rule", "variable-with-fp-rule", "truncated-with-fixed", "fixed-len-differs", "fixed-raw-short", "version",
+    for what in ("fixed-with-vp-rule", "variable-with-fp-rule", "truncated-with-fixed", "fixed-len-differs", "fixed-raw-short", "fixed-len-larger-with-tail", "version",
                  "no-room", "variable-raw-short", "truncated-raw-short"):
         cs.append(Case("mismatch-" + what, "mismatch", h_mismatch, dict(what=what), bounds="decoder-visible mismatch: " + what))
     return cs
